@@ -702,6 +702,7 @@ Definition enc_perr (e : perr) : sx :=
   Sym (s_ match e with
           | EStackOverflow => "StackOverflow" | EDivZero => "DivideByZero" | EBadRepetition => "BadRepetition"
           | EBounds => "Bounds" | EIndexValue => "IndexValue" | EMapKey => "MapKey" | Vm.ESlice => "Slice"
+          | ERangeValue => "RangeValue"
           end).
 
 (* fuel in two levels, so that no huge unary number is ever built *)
